@@ -432,6 +432,11 @@ def pipeline_inputs(tier, seed):
         L, R = gen_pair(rng, ny, nx, small_alphabet=bool(rng.integers(0, 2)), related=bool(n % 4 != 3))
         inp = {"kind": "pipeline", "pipeline": make_pipeline(*spec), "left": L.tolist(), "right": R.tolist(), "msk_left": None, "msk_right": None,
                "interval": None, "gmin": None, "gmax": None}
+        if spec[5] is not None and n % 2 == 0:
+            # an invalid_disparity marker NEAR the searched interval (any number is a legal marker): a filter that let invalid
+            # neighbours into its support would then drag valid pixels out of the interval, which the default -9999 hides
+            # (the bilateral range kernel gives such a far value a zero weight)
+            inp["pipeline"]["disparity"]["invalid_disparity"] = [5, -5][(n // 2) % 2]
         if n % 5 == 4:  # per-pixel grids (constant by blocks of columns so that neighbours mostly agree)
             a, b = rng.integers(-3, 4, size=(1, nx)), rng.integers(-3, 4, size=(1, nx))
             inp["gmin"], inp["gmax"] = np.repeat(np.minimum(a, b), ny, 0).tolist(), np.repeat(np.maximum(a, b), ny, 0).tolist()
